@@ -62,6 +62,16 @@ def case_history(ctx, cfg):
         if e is not None or not proj_eq(r2.array, want0, 1e-9):
             ctx.fail(f"{kind}:used-then-copied", op, inputs, want0, e if e is not None else r2.array)
             return
+        # ... given in other homogeneous representatives (negative, imaginary, complex with argument +-45 and 135 degrees:
+        # |re + im| of such a factor vanishes), each argument alone and all together
+        for lam in (-2.0, 1j, 1 - 1j, -1 + 1j, 1 + 1j):
+            for which in list(range(len(args))) + ["all"]:
+                sargs = [type(a)(a.array * lam) if (which == "all" or which == i) else a for i, a in enumerate(args)]
+                r5, e = ctx.call(f, *sargs)
+                ctx.trace()
+                if e is not None or not proj_eq(r5.array, want0, 1e-9):
+                    ctx.fail(f"{kind}:representative-times-{'complex' if isinstance(lam, complex) else 'real'}", op, {**inputs, "factor": lam, "argument": which}, want0, e if e is not None else r5.array)
+                    return
         # ... and the originals still answer as before
         r3, e = ctx.call(f, *args)
         if e is not None or not proj_eq(r3.array, want0, 1e-9):
